@@ -40,8 +40,7 @@ def one(spec):
         assert r.returncode == 0, r.stderr
         r = sh("git", "-C", wt, "apply", patch)
         assert r.returncode == 0, "patch does not apply: " + r.stderr
-        r = sh("rsync", "-a", "--exclude", "target*", "--exclude", "work", "--exclude", "replays", "--exclude", ".git",
-               "--exclude", "seeded", ROOT + "/", vf + "/")
+        r = sh("rsync", "-a", BASE + "/", vf + "/")
         assert r.returncode == 0, r.stderr
         ct = os.path.join(vf, "harness", "Cargo.toml")
         s = open(ct).read().replace('path = "/repo"', 'path = "%s"' % wt)
@@ -83,14 +82,23 @@ def one(spec):
     return sid, res
 
 
+BASE = os.path.join(SCR, "base_%d" % os.getpid())
+
+
 def main():
     a = sys.argv[1:]
+    # one snapshot of /verif for the whole batch: later edits of the working tree do not reach it
+    os.makedirs(SCR, exist_ok=True)
+    r = sh("rsync", "-a", "--delete", "--exclude", "target*", "--exclude", "work", "--exclude", "replays", "--exclude", ".git",
+           "--exclude", "seeded", ROOT + "/", BASE + "/")
+    assert r.returncode == 0, r.stderr
     jobs = 3
     if a and a[0] == "-j":
         jobs = int(a[1]); a = a[2:]
     with ThreadPoolExecutor(max_workers=jobs) as ex:
         list(ex.map(one, a))
     sh("git", "-C", "/repo", "worktree", "prune")
+    shutil.rmtree(BASE, ignore_errors=True)
 
 
 if __name__ == "__main__":
